@@ -225,7 +225,7 @@ def verifyAnswer (cache : Option (String × Except VDecErr VerifierM)) (toks : L
           | .piLen => ("err:pilen", cache)
           | .reject => ("err:verify" ++ canon, cache)
     | _, _, _, _ => ("bad-request", cache)
-  | ["vkscalars", ver, _x, vhex, pis, phex] =>
+  | "vkscalars" :: ver :: _x :: vhex :: pis :: phex :: ovr =>
     -- the TOTAL scalar each of the 15 verifier-key commitments carries in the right-hand side of the verification
     -- equation (textbook form), for the challenges of this statement and proof: scalars depend on evaluations and
     -- challenges only, so they are read off a copy of the terms in which every commitment is a distinct marker.
@@ -237,7 +237,24 @@ def verifyAnswer (cache : Option (String × Except VDecErr VerifierM)) (toks : L
         match Domain.new? v.vk.n with
         | none => ("err", cache)
         | some d =>
-          let ch := verifierChallenges v.label v.vk v.constraints (ver == .v3) pis p
+          let ch0 := verifierChallenges v.label v.vk v.constraints (ver == .v3) pis p
+          -- optional overrides `name=hex` (the challenges the REAL verifier derived, when its transcript is under suspicion)
+          let ov (n : String) (dflt : Nat) : Nat :=
+            match ovr.find? (fun t => t.startsWith (n ++ "=")) with
+            | some t => (parseHex? ((t.drop (n.length + 1)).toString)).getD dflt
+            | none => dflt
+          let ch : Challenges :=
+            { beta := ov "beta" ch0.beta
+              gamma := ov "gamma" ch0.gamma
+              alpha := ov "alpha" ch0.alpha
+              rangeSep := ov "rsep" ch0.rangeSep
+              logicSep := ov "lsep" ch0.logicSep
+              fixedSep := ov "fsep" ch0.fixedSep
+              varSep := ov "vsep" ch0.varSep
+              z := ov "z" ch0.z
+              v := ov "v" ch0.v
+              vw := ov "vw" ch0.vw
+              u := ov "u" ch0.u }
           let roots := v.piIndexes.map fun i => fpow d.groupGenInv (i % 2 ^ 64)
           let mk (i : Nat) : G1 := .aff (1000 + i) 1
           let vkM : VKey := { n := v.vk.n, qm := mk 0, ql := mk 1, qr := mk 2, qo := mk 3, qf := mk 4, qc := mk 5, qarith := mk 6,
